@@ -1,0 +1,18 @@
+//go:build verif
+
+// Contracts for package locker (comment-only; read by /verif/govc, never compiled into olric).
+//
+// The fine-grained locker only serialises goroutines of this member; interleavings are not explored by the
+// verifier, so its operations are effect-free for data (assumed).
+
+package locker
+
+//@ func (l *Locker) Lock(name string)
+//@   props C08 C07
+//@   trusted
+//@   modifies nothing
+
+//@ func (l *Locker) Unlock(name string) error
+//@   props C08 C07
+//@   trusted
+//@   modifies nothing
